@@ -406,6 +406,38 @@ func genBytes(rng__ *rand.Rand) []byte {
 	}
 	return bs
 }
+func genWords(rng__ *rand.Rand) []big.Word {
+	n := []int{0, 0, 1, 1, 2, 2, 3, 5}[rng__.Intn(8)]
+	ws := make([]big.Word, n, n+rng__.Intn(2))
+	for i := range ws {
+		ws[i] = big.Word([]uint64{0, 0, 1, 1 << 63, 1<<64 - 1, 10, 7766279631452241920}[rng__.Intn(7)])
+	}
+	return ws
+}
+// racState is a fmt.State that records what is written and answers flag queries from a fixed set.
+type racState struct {
+	out          []byte
+	flags        string
+	wid, prec    int
+	hasW, hasP   bool
+}
+func (s *racState) Write(b []byte) (int, error) { s.out = append(s.out, b...); return len(b), nil }
+func (s *racState) Width() (int, bool)          { return s.wid, s.hasW }
+func (s *racState) Precision() (int, bool)      { return s.prec, s.hasP }
+func (s *racState) Flag(c int) bool             { return strings.IndexByte(s.flags, byte(c)) >= 0 }
+func genState(rng__ *rand.Rand) fmt.State {
+	st := &racState{flags: []string{"", "", "+", "-", " ", "#", "0", "+0", "-0", "+-# 0"}[rng__.Intn(10)]}
+	st.wid, st.hasW = []int{0, 1, 5, 40}[rng__.Intn(4)], rng__.Intn(2) == 0
+	st.prec, st.hasP = []int{0, 1, 5, 40}[rng__.Intn(4)], rng__.Intn(2) == 0
+	return st
+}
+func genVerb(rng__ *rand.Rand) rune {
+	if rng__.Intn(8) == 0 {
+		return rune(genInt(rng__))
+	}
+	vs := []rune("bdoOxXsvqeEfFgGcUtTpz%")
+	return vs[rng__.Intn(len(vs))]
+}
 func genSlice(rng__ *rand.Rand) []int64 {
 	n := rng__.Intn(4)
 	xs := make([]int64, n)
@@ -541,6 +573,8 @@ func (W *World) racParams(fn *ssa.Function) ([]racParam, bool) {
 				switch {
 				case u.Info()&types.IsBoolean != 0:
 					rp.goType, rp.gen, rp.show = goTypeName(t), "rng__.Intn(2) == 0", "fmt.Sprint(%s)"
+				case u.Kind() == types.Int32 && goTypeName(t) == "rune":
+					rp.goType, rp.gen, rp.show = "rune", "genVerb(rng__)", "fmt.Sprintf(\"%%q\", %s)"
 				case u.Info()&types.IsInteger != 0:
 					rp.goType, rp.gen, rp.show = goTypeName(t), goTypeName(t)+"(genInt(rng__))", "fmt.Sprint(%s)"
 				case u.Info()&types.IsString != 0:
@@ -553,6 +587,8 @@ func (W *World) racParams(fn *ssa.Function) ([]racParam, bool) {
 					rp.goType, rp.gen, rp.show = "[]int64", "genSlice(rng__)", "fmt.Sprint(%s)"
 				} else if b, ok := u.Elem().(*types.Basic); ok && (b.Kind() == types.Uint8 || b.Kind() == types.Byte) {
 					rp.goType, rp.gen, rp.show = "[]byte", "genBytes(rng__)", "fmt.Sprint(%s)"
+				} else if nm, ok := u.Elem().(*types.Named); ok && nm.Obj().Name() == "Word" && nm.Obj().Pkg() != nil && nm.Obj().Pkg().Path() == "math/big" {
+					rp.goType, rp.gen, rp.show = "[]big.Word", "genWords(rng__)", "fmt.Sprint(%s)"
 				} else {
 					return nil, false
 				}
@@ -562,8 +598,16 @@ func (W *World) racParams(fn *ssa.Function) ([]racParam, bool) {
 					if true {
 						rp.gen = "func() *big.Int { v := racBig(racCoeffs[rng__.Intn(len(racCoeffs))]); if rng__.Intn(3) == 0 { v.Neg(v) }; return v }()"
 					}
+				} else if nm, ok := u.Elem().(*types.Named); ok && nm.Obj().Name() == "Rand" && nm.Obj().Pkg() != nil && nm.Obj().Pkg().Path() == "math/rand" {
+					rp.goType, rp.gen, rp.show = "*rand.Rand", "rand.New(rand.NewSource(int64(rng__.Intn(1 << 20))))", "fmt.Sprint(%s != nil)"
 				} else if b, ok := u.Elem().(*types.Basic); ok && b.Kind() == types.Int64 {
 					rp.goType, rp.gen, rp.cp, rp.show = "*int64", "func() *int64 { v := genInt(rng__); return &v }()", "cpI64(%s)", "fmt.Sprint(*%s)"
+				} else {
+					return nil, false
+				}
+			case *types.Interface:
+				if nm, ok := t.(*types.Named); ok && nm.Obj().Name() == "State" && nm.Obj().Pkg() != nil && nm.Obj().Pkg().Path() == "fmt" {
+					rp.goType, rp.gen, rp.show = "fmt.State", "genState(rng__)", "fmt.Sprintf(\"%%+v\", *%s.(*racState))"
 				} else {
 					return nil, false
 				}
